@@ -1173,7 +1173,7 @@ bool P11AttrStartDate::setDefault()
 }
 
 // Update the value if allowed
-CK_RV P11AttrStartDate::updateAttr(Token* /*token*/, bool /*isPrivate*/, CK_VOID_PTR pValue, CK_ULONG ulValueLen, int /*op*/)
+CK_RV P11AttrStartDate::updateAttr(Token* token, bool isPrivate, CK_VOID_PTR pValue, CK_ULONG ulValueLen, int /*op*/)
 {
 	// Attribute specific checks
 
@@ -1182,8 +1182,17 @@ CK_RV P11AttrStartDate::updateAttr(Token* /*token*/, bool /*isPrivate*/, CK_VOID
 		return CKR_ATTRIBUTE_VALUE_INVALID;
 	}
 
-	// Store data
-	osobject->setAttribute(type, ByteString((unsigned char*)pValue, ulValueLen));
+	// Store data; like every other byte string it is encrypted for private objects
+	ByteString plaintext((unsigned char*)pValue, ulValueLen);
+	ByteString value;
+	if (isPrivate)
+	{
+		if (!token->encrypt(plaintext, value))
+			return CKR_GENERAL_ERROR;
+	}
+	else
+		value = plaintext;
+	osobject->setAttribute(type, value);
 
 	return CKR_OK;
 }
@@ -1200,7 +1209,7 @@ bool P11AttrEndDate::setDefault()
 }
 
 // Update the value if allowed
-CK_RV P11AttrEndDate::updateAttr(Token* /*token*/, bool /*isPrivate*/, CK_VOID_PTR pValue, CK_ULONG ulValueLen, int /*op*/)
+CK_RV P11AttrEndDate::updateAttr(Token* token, bool isPrivate, CK_VOID_PTR pValue, CK_ULONG ulValueLen, int /*op*/)
 {
 	// Attribute specific checks
 
@@ -1209,8 +1218,17 @@ CK_RV P11AttrEndDate::updateAttr(Token* /*token*/, bool /*isPrivate*/, CK_VOID_P
 		return CKR_ATTRIBUTE_VALUE_INVALID;
 	}
 
-	// Store data
-	osobject->setAttribute(type, ByteString((unsigned char*)pValue, ulValueLen));
+	// Store data; like every other byte string it is encrypted for private objects
+	ByteString plaintext((unsigned char*)pValue, ulValueLen);
+	ByteString value;
+	if (isPrivate)
+	{
+		if (!token->encrypt(plaintext, value))
+			return CKR_GENERAL_ERROR;
+	}
+	else
+		value = plaintext;
+	osobject->setAttribute(type, value);
 
 	return CKR_OK;
 }
